@@ -246,16 +246,26 @@ class StepRule:
         self.problems = []
         self.by_value = set()
         self.enumerated = False
+        self.initial = set()
 
     def inline_ok(self, I, ci, body):
         from .common import pure_helper
         return pure_helper(body, self.fn.npath.rsplit('::', 1)[0])
 
-    def state(self, w, depth):
+    def state(self, w, depth, prev=None, first=False):
+        """named integer locals of the helper's frame plus the pseudo variable `#n`: the number of items the iterator has
+        yielded so far (exact up to the widening bound, like every other counter)"""
+        from .. import absint
         out = []
         for (d, l), v in w.store.items():
             if d == depth and l in self.named and v[0] == 'int':
                 out.append((self.named[l], v))
+        if first or prev is None:
+            n = const_int(0)
+        else:
+            k = int_singleton(dict(prev).get('#n', ('int', frozenset(), 0)))
+            n = const_int(k + 1) if k is not None and k + 1 < absint.WIDEN_AT else ('int', frozenset(), 0)
+        out.append(('#n', n))
         return tuple(sorted(out))
 
     def on_call(self, I, w, ci, args):
@@ -284,9 +294,11 @@ class StepRule:
             it = args[0]
             itv = I.read(w, it[1]) if it[0] == 'ref' else it
             prev, evs = w.st
-            cur = self.state(w, ci.depth)
+            cur = self.state(w, ci.depth, prev)
             if prev is not None:
                 self.steps.add((prev, evs, cur))
+            else:
+                self.initial.add(cur)
             name = itv[1] if itv[0] == 'sym' else '?'
             enum = name.startswith('enumerate(')
             if enum:
@@ -298,7 +310,8 @@ class StepRule:
             else:
                 item = wrap(('sym', 'b'))
             if enum:
-                item = ('tuple', (('sym', 'position'), item))
+                # `enumerate` pairs each element with its exact position: the number of items yielded before it
+                item = ('tuple', (dict(cur)['#n'], item))
             return [(w.with_st((cur, (('over', name),))), some(item)), (w.with_st((cur, (('end', name),))), none())]
         if p.endswith('Utf8Accum::push_byte'):
             prev, evs = w.st
@@ -321,9 +334,11 @@ class ClassStepRule(StepRule):
             it = args[0]
             itv = I.read(w, it[1]) if it[0] == 'ref' else it
             prev, evs = w.st
-            cur = self.state(w, ci.depth)
+            cur = self.state(w, ci.depth, prev)
             if prev is not None:
                 self.steps.add((prev, evs, cur))
+            else:
+                self.initial.add(cur)
             out = [(w.with_st((cur, (('end',),))), none())]
             byv = itv[0] == 'sym' and any(n in itv[1] for n in self.by_value)
             for c in self.classes:
@@ -468,6 +483,85 @@ def stateful_filter(res, lib, f, clos, body, classes):
     return True
 
 
+def returned_vars(exits, names):
+    """named counters whose value is what the helper returns at every exit observed exactly (at least one of them > 0)"""
+    cands = set(names)
+    seen_pos = False
+    for w, rv in exits:
+        r = int_singleton(rv) if rv and rv[0] == 'int' else None
+        st = w.st[0] if isinstance(w.st, tuple) and w.st and w.st[0] is not None else None
+        if r is None or st is None:
+            continue
+        d = dict(st)
+        if int_singleton(d.get('#n', ('top',))) is None:
+            continue
+        seen_pos = seen_pos or r > 0
+        cands = {c for c in cands if c in d and int_singleton(d[c]) == r}
+    return cands if seen_pos else set()
+
+
+def check_snap_by_class(res, lib, f, rule, classes, exits):
+    """`common_prefix_len` without the scalar decoder: the extracted step relation (state, byte class) -> state is run from
+    the initial state over every pair of well-formed byte-class sequences of Unicode Table 3-7; the returned variable must
+    equal the number of bytes consumed after the last byte of each scalar and keep the previous boundary on every other
+    byte (a prefix may only end between two scalars)"""
+    trans = {}
+    names = set()
+    for prev, evs, cur in rule.steps:
+        cl = [e[1] for e in evs if e[0] == 'class']
+        if len(cl) == 1:
+            trans.setdefault((prev, cl[0]), set()).add(cur)
+            names |= {n for n, _ in prev if n != '#n'}
+    cands = returned_vars(exits, names)
+    seqs = spec.wellformed_class_sequences(classes)
+    bad = {}
+    nchk = 0
+    stuck = None
+    for s1 in seqs:
+        for s2 in seqs:
+            states = set(rule.initial)
+            count = 0
+            boundary = 0
+            for seq in (s1, s2):
+                for k, c in enumerate(seq):
+                    nxt = set()
+                    for st in states:
+                        nxt |= trans.get((st, c), set())
+                    if not nxt and stuck is None:
+                        stuck = (seq, k)
+                    states = nxt
+                    count += 1
+                    if k == len(seq) - 1:
+                        boundary = count
+                    for st in states:
+                        d = dict(st)
+                        for pv in cands:
+                            nchk += 1
+                            v = int_singleton(d.get(pv, ('top',)))
+                            if v != boundary and pv not in bad:
+                                bad[pv] = (seq, k, v, boundary, count)
+    goodv = sorted(c for c in cands if c not in bad)
+    good = bool(goodv) and stuck is None and nchk > 0
+    msg = ''
+    if not good:
+        if not cands:
+            msg = "%s: no counter of the loop is what the function returns" % f.npath
+        elif stuck is not None and not bad:
+            msg = "%s: the loop's step relation has no successor on [%s] (byte %d of a well-formed sequence)" % (
+                f.npath, fsm.cls_name(stuck[0][stuck[1]]), stuck[1] + 1)
+        else:
+            pv = sorted(bad)[0]
+            seq, k, v, b, cnt = bad[pv]
+            msg = ("%s: after the %s byte of the well-formed sequence %s (%d bytes compared) the returned prefix length `%s` is %s, "
+                   "but the last scalar boundary is at %d: the prefix can end inside a character" % (
+                       f.npath, ['first', 'second', 'third', 'fourth'][k], " ".join("[%s]" % fsm.cls_name(c) for c in seq),
+                       cnt, pv, v, b))
+    res.oblige("D|%s|snap-by-class|%d" % (f.npath, nchk), good,
+               sample="%s: returned prefix length %s sits on a scalar boundary after every byte of %d sequence pairs" % (
+                   f.npath, goodv, len(seqs) ** 2),
+               violation=None if good else dict(rule='C17.counting', key="C17|counting|%s|snap" % f.npath, msg=msg))
+
+
 def check_counting_by_class(res, lib, f, sp):
     closures = [g for g in lib.lib_fns() if g.kind == 'Closure' and g.path.startswith(f.path + '::')]
     classes = fsm.partition_at(fsm.int_cuts(fsm.with_callees(lib, [f] + closures)) | spec.boundaries())
@@ -477,11 +571,13 @@ def check_counting_by_class(res, lib, f, sp):
     for i in range(1, f.body['arg_count'] + 1):
         ty = f.body['locals'][i]['ty']
         args.append(('sym', f.body['locals'][i]['name']) if ty.get('k') == 'ref' else ('int', frozenset(), 0))
-    I.run(f, args, (None, ()), {})
+    exits = I.run(f, args, (None, ()), {})
     if len(rule.steps) < 4:
-        if check_counting_by_filter(res, lib, f, classes):
+        if 'snap' not in sp['roles'] and check_counting_by_filter(res, lib, f, classes):
             return
         raise KeyError("%s: neither a byte loop nor an iterator filter/count pipeline recognised" % f.npath)
+    if 'snap' in sp['roles']:
+        check_snap_by_class(res, lib, f, rule, classes, exits)
     # per named counter: how it steps on first bytes of scalars (exp 1) and on continuation bytes (exp 0)
     behaviour = {}
     for prev, evs, cur in sorted(rule.steps, key=str):
@@ -498,7 +594,7 @@ def check_counting_by_class(res, lib, f, sp):
             continue         # bytes that never occur in well-formed text
         pd, cd = dict(prev), dict(cur)
         for cn in pd:
-            if cn not in cd:
+            if cn not in cd or cn == '#n':
                 continue
             a, b = int_singleton(pd[cn]), int_singleton(cd[cn])
             if a is None or b is None:
@@ -529,7 +625,7 @@ def check_counting(res, lib):
     spec_ = {
         'utils::char_count': dict(over='iter(%s)', byte='b', roles=('some',)),
         'utils::char_byte_index': dict(over='iter(%s)', byte='b', roles=('some', 'always')),
-        'utils::common_prefix_len': dict(over='zip(iter(%s),iter(%s))', byte='b1', roles=('always',)),
+        'utils::common_prefix_len': dict(over='zip(iter(%s),iter(%s))', byte='b1', roles=('always', 'snap')),
     }
     for np_, sp in spec_.items():
         f = lib.fn(np_)
@@ -540,7 +636,7 @@ def check_counting(res, lib):
             ty = f.body['locals'][i]['ty']
             nm = f.body['locals'][i]['name']
             args.append(('sym', nm) if ty.get('k') == 'ref' else ('int', frozenset(), 0))
-        I.run(f, args, (None, ()), {})
+        exits = I.run(f, args, (None, ()), {})
         if not any(e[0] == 'push' for st in rule.steps for e in st[1]):
             # the helper does not use the scalar decoder: judge it by what it does per byte class of well-formed text
             check_counting_by_class(res, lib, f, sp)
@@ -550,6 +646,8 @@ def check_counting(res, lib):
         params = [a[1] for a in args if a[0] == 'sym']
         want_over = sp['over'] % tuple(params[:sp['over'].count('%s')])
         behaviour = {}      # named int local -> set of observed (outcome, delta)
+        snap = {}           # named int local -> first deviation from "takes the byte count on Some, keeps its value on None"
+        snapped = set()
         for prev, evs, cur in sorted(rule.steps, key=str):
             over = [e for e in evs if e[0] == 'over']
             pushes = [e for e in evs if e[0] == 'push']
@@ -563,18 +661,38 @@ def check_counting(res, lib):
             elif pushes:
                 outcome = pushes[0][3]
                 pd, cd = dict(prev), dict(cur)
+                n_after = int_singleton(cd.get('#n', ('top',)))
                 for c in pd:
-                    if c not in cd:
+                    if c not in cd or c == '#n':
                         continue
                     a, b = int_singleton(pd[c]), int_singleton(cd[c])
                     if a is None or b is None:
                         continue      # widened values: the relation is observed on the exact prefix 0..WIDEN_AT
                     behaviour.setdefault(c, set()).add((outcome, b - a))
+                    if n_after is not None:
+                        if outcome == 'Some':
+                            snapped.add(c)
+                            if b != n_after:
+                                snap.setdefault(c, "is %d after byte %d completed a scalar" % (b, n_after))
+                        elif b != a:
+                            snap.setdefault(c, "moves from %d to %d on byte %d, which does not complete a scalar" % (a, b, n_after))
             res.oblige("D|%s|%s|%s" % (np_, evs, cur), good, violation=None if good else dict(
                 rule='C17.counting', key="C17|counting|%s" % np_, msg="%s: %s" % (np_, why)))
         found = {'some': [c for c, bs in behaviour.items() if bs == {('Some', 1), ('None', 0)}],
                  'always': [c for c, bs in behaviour.items() if bs == {('Some', 1), ('None', 1)}]}
+        if 'snap' in sp['roles']:
+            names = {n for st in rule.steps for n, _ in st[0] if n != '#n'}
+            cands = returned_vars(exits, names)
+            goodv = sorted(c for c in cands if c in snapped and c not in snap)
+            good = bool(goodv)
+            why = ("no counter of the loop is what the function returns" if not cands else
+                   "; ".join("the returned prefix length `%s` %s" % (c, snap.get(c, 'is never set')) for c in sorted(cands)))
+            res.oblige("D|%s|role snap" % np_, good, sample="%s: returned prefix length %s is the byte count at the last completed scalar" % (np_, goodv),
+                       violation=None if good else dict(rule='C17.counting', key="C17|counting|%s|snap" % np_,
+                                                        msg="%s: %s: the prefix can end inside a character" % (np_, why)))
         for role in sp['roles']:
+            if role == 'snap':
+                continue
             good = bool(found[role]) or (role == 'always' and rule.enumerated)     # `enumerate()` is a byte counter
             res.oblige("D|%s|role %s" % (np_, role), good, sample="%s: `%s` counter is %s" % (np_, role, found[role]),
                        violation=None if good else dict(
